@@ -391,5 +391,14 @@ def run(ctx):
             # a vector filled from the recorder's iterator (with_capacity + extend) is the same snapshot
             pcs = W.buffer_seq(snap) or []
             okc = any(values.contains(W.expand(x), lambda s: is_call(s) and s[1].endswith("ServerStats::iter")) for x in pcs)
+    if len(push) == 1 and len(clear) == 1 and sc.dominates(push[0], clear[0]) and not okc:
+        # the snapshot taken through a provided method of the trait (`fn snapshot(&self) -> Vec<_> { self.iter()..collect() }`) that no
+        # implementation overrides
+        snap = W.expand(cev.call_args(push[0])[1])
+        for x in values.subterms(snap):
+            if is_call(x) and x[1] in P.fns and x[1].startswith(TRAIT + "::") and x[2] and not P.trait_impl_methods(TRAIT, x[1].split("::")[-1]):
+                r2 = W.expand(W.ev(x[1]).ret())
+                if values.contains(r2, lambda s: is_call(s) and s[1].endswith("ServerStats::iter") and s[2] and s[2][0] == ("param", x[1], 1)):
+                    okc = True
     ctx.check("send-wiring", "snapshot-pushed-before-clear", okc, "the recorder is cleared only after its snapshot was pushed to the queue",
               "send_client_stats clears the recorder without having pushed the snapshot", ctx.loc(sc))
